@@ -71,7 +71,11 @@ func styled(fm *Frame, input any, stylings ...any) (ui.Text, error) {
 			}
 			text = ui.StyleText(text, parsedStyling)
 		case Callable:
-			for i, seg := range text {
+			// The function may return empty segments, or segments whose style
+			// equals that of their neighbors; build the new text with a
+			// TextBuilder to keep it normalized.
+			var tb ui.TextBuilder
+			for _, seg := range text {
 				vs, err := fm.CaptureOutput(func(fm *Frame) error {
 					return styling.Call(fm, []any{seg}, NoOpts)
 				})
@@ -84,9 +88,10 @@ func styled(fm *Frame, input any, stylings ...any) (ui.Text, error) {
 				} else if styledSegment, ok := vs[0].(*ui.Segment); !ok {
 					return nil, fmt.Errorf("styling function must return a segment; got %s", vals.Kind(vs[0]))
 				} else {
-					text[i] = styledSegment
+					tb.WriteText(ui.TextFromSegment(styledSegment))
 				}
 			}
+			text = tb.Text()
 
 		default:
 			return nil, fmt.Errorf("need string or callable; got %s", vals.Kind(styling))
